@@ -82,8 +82,12 @@ def rule_fields(crate, prop, tier):
                         prog.fns[paths[0]]["span"])
             if mname == "clone":
                 lits = [t for t in an.stmt_terms.values() if t[0] == "agg" and t[1] == "adt" and t[2][0] == S]
-                okc = len(lits) == 1 and all(op[0] == "call" and op[1] == "core::clone::Clone::clone" and op[3][0][0] == "at"
-                                             and op[3][0][1] == "A1." + f for f, op in zip(fields, lits[0][3]))
+                def cloned(f, op):
+                    if op[0] == "call" and op[1] == "core::clone::Clone::clone" and op[3][0][0] == "at" and op[3][0][1] == "A1." + f:
+                        return True
+                    # a Copy scalar field may simply be copied
+                    return op == ("mem", "A1." + f, ("e",), None)
+                okc = len(lits) == 1 and all(cloned(f, op) for f, op in zip(fields, lits[0][3]))
                 o.check(okc, prog.pretty[paths[0]], "clone-fieldwise", "clone() does not clone every field of self into the same field", prog.fns[paths[0]]["span"])
     # canonical storage: every AdjacencyMatrix value has exactly div_ceil(order * order, 64) words (an extra or missing
     # zero word would make equal digraphs compare / hash differently)
